@@ -75,6 +75,8 @@ func c13values() []c13value {
 		mk("bool", true, refcbor.NBool(true)),
 		mk("null", nil, refcbor.NNull()),
 		mk("float", 1.5, refcbor.NFloat64(1.5)),
+		mk("simple-value", cbor.SimpleValue(99), refcbor.NSimple(99)),
+		mk("simple-value-small", cbor.SimpleValue(16), refcbor.NSimple(16)),
 		{"countersignature", func(*mon.Rand) any { return c13csGo() }, func(*mon.Rand) *Node { return c13csWire() }},
 		{"countersignature-list", func(*mon.Rand) any { return []*cose.Countersignature{c13csGo(), c13csGo()} }, func(*mon.Rand) *Node { return refcbor.NArr(c13csWire(), c13csWire()) }},
 	}
